@@ -62,7 +62,7 @@ class PBRootUnslicer(RootUnslicer):
                     why = "first opentype STRING token is too long, %d>%d" % \
                           (size, self.maxIndexLength)
                     raise Violation(why)
-            if opentype == ("copyable",):
+            if tuple(opentype) == ("copyable",):
                 # TODO: this is silly, of course (should pre-compute maxlen)
                 maxlen = reduce(max,
                                 [len(cname) \
